@@ -23,11 +23,35 @@ def run(cmd, cwd, timeout=1800):
     return p.returncode, (p.stdout + p.stderr)
 
 
+def passing(wt, pkgs):
+    """set of tests that pass in the given packages (a panicking test binary simply contributes fewer)"""
+    rc, out = run("go test -count=1 -vet=off -timeout 10m -json " + " ".join(pkgs), wt)
+    ok = set()
+    for l in out.splitlines():
+        try:
+            ev = json.loads(l)
+        except Exception:
+            continue
+        if ev.get("Action") == "pass" and ev.get("Test"):
+            ok.add(ev["Package"] + "." + ev["Test"])
+    return ok
+
+
+def touched(patch):
+    pk = set()
+    for l in open(patch):
+        if l.startswith("+++ b/"):
+            pk.add("./" + os.path.dirname(l[6:].strip()))
+    return sorted(pk)
+
+
 def main():
     pid, wt, patch, demo, target = sys.argv[1:6]
     runre = sys.argv[6] if len(sys.argv) > 6 else ""
     res = {"property": pid, "patch": patch}
     run("git checkout -- . && git clean -fdq -e _out", wt)
+    pkgs = touched(patch)
+    before = passing(wt, pkgs)
     dst = os.path.join(wt, target, os.path.basename(demo))
     if os.path.isdir(demo):
         dst = os.path.join(wt, target)
@@ -63,7 +87,10 @@ def main():
     # remove the demo, keep the patch for the existing tests
     if not os.path.isdir(demo):
         os.remove(dst)
-    res["tests_cmd"] = "go test -count=1 " + pkg
+    elif target.strip("/") not in [p[2:] for p in pkgs]:
+        shutil.rmtree(dst, ignore_errors=True)
+    after = passing(wt, pkgs)
+    res["existing_tests"] = "go test -count=1 %s: %d tests pass unchanged, %d with the patch, lost: %s" % (" ".join(pkgs), len(before), len(after), sorted(before - after) or "none")
     run("git checkout -- . && git clean -fdq -e _out", wt)
     print(json.dumps(res, indent=1))
 
